@@ -7,6 +7,11 @@ ALL = ["C%02d" % i for i in range(1, 21)]
 
 # id -> (level, technique, level text, level note, design ref)
 CLAIMS = {
+ "C15": ("exploration",
+         "rapid model-based operation sequences (rx and tx usage) against a flat byte-slice / packet-layout model + exhaustive enumeration of all short sequences over a tiny packet size",
+         "Operation sequences over the exported PacketQueue API are compared step by step with a flat byte model (bytes out = bytes in, in order; short read = ErrNotEnoughBytes; restore re-reads; discard is invisible) and a layout model for writes (Position after every write); all sequences up to length 5/6 (quick) and 7/8 (thorough) over small alphabets are enumerated completely.",
+         "Only the two usages the library has (receive side, transmit side) and write-then-read-back are generated; positions are restored only before the next discard (documented volatile).",
+         "DESIGN.md section 3, C15"),
  "C20": ("exploration",
          "exhaustive enumeration of both level domains + rapid call-history generation + cross-process agreement, oracle = table written from the property text",
          "Every sql.IsolationLevel in -8..64 and every ASE level in -4..8 is enumerated (finite space, complete), each evaluated thousands of times in 5+ separate processes whose answers must agree; random call histories check answer stability. For a function over a tiny finite domain whose only hidden input is map iteration order this is as strong as testing gets.",
